@@ -156,7 +156,7 @@ class X923(blockiterator):
     # remove padding:
     def remove(self,c):
         q = c[-1]
-        if q>self.blocklen or (c[-q:-1]!=b'\0'*(q-1)):
+        if q==0 or q>self.blocklen or (c[-q:-1]!=b'\0'*(q-1)):
             raise PaddingError(c)
         else:
             return c[:-q]
